@@ -31,11 +31,15 @@ EXTRA_PROGS = [
     # change what the other checks of the family report)
     "import os, subprocess\nsubprocess.call(['ls', '-l'])\nos.system('ls -l')\nos.execl('/bin/ls', 'ls')\nos.popen('ls')\nos.spawnl(0, 'ls')\n"
     "subprocess.Popen(['ls'], shell=False)\nos.execvp('ls', ['ls'])\nmyspawn(['ls'])\nopen('/tmp/zz_f')\n",
+    "import os, subprocess\nos.system('chmod 777 *')\nos.popen('tar cf zz.tar *')\nsubprocess.Popen('rsync -a * zz:', shell=True)\nos.system('ls')\n",
 ]
 # user configurations under which the same law must hold (the configuration is the same in both runs)
 CONFIGS = [None,
            {"shell_injection": {"subprocess": ["subprocess.Popen", "subprocess.call", "myspawn"], "shell": ["os.system"], "no_shell": ["os.execl"]}},
-           {"hardcoded_tmp_directory": {"tmp_dirs": ["/var/data"]}, "try_except_pass": {"check_typed_exception": True}}]
+           {"hardcoded_tmp_directory": {"tmp_dirs": ["/var/data"]}, "try_except_pass": {"check_typed_exception": True}},
+           # partial blocks: whatever a check makes of a missing list, it makes the same of it under every selection
+           {"shell_injection": {"shell": ["os.system", "os.popen"]}},
+           {"shell_injection": {"subprocess": ["subprocess.Popen", "subprocess.call"]}}]
 
 
 def spec_filter(all_ids, bl_ids, inc, exc):
@@ -106,6 +110,17 @@ def run(R, replay=None):
     files = rng.sample(ex, 6 if R.tier == "quick" else 40)
     progs = [open(f, "rb").read() for f in files] + [s.encode() for s in EXTRA_PROGS]
     n_sel = 8 if R.tier == "quick" else 40
+    # one statement per name of every import rule (a name two rules claim would be reported under one of them only)
+    try:
+        from bandit.core import extension_loader as _el
+        imp_names = sorted({q for b in _el.MANAGER.blacklist.get("Import", []) for q in b["qualnames"]})
+    except Exception:  # noqa: BLE001
+        imp_names = []
+    per_rule = []
+    for q in imp_names:
+        per_rule.append("import %s\n" % q if "." not in q else "from %s import %s\n" % tuple(q.rsplit(".", 1)))
+    ALL_IDS_PROGS = [("".join(per_rule[i:i + 25])).encode() for i in range(0, len(per_rule), 25)]
+    progs += ALL_IDS_PROGS
     pool = sorted(all_ids)
     key = lambda r: (r["test_id"], r["test"], r["sev"], r["conf"], r["cwe"], r["text"], r["lineno"], tuple(r["linerange"]), r["col"], r["ecol"])
     import yaml
@@ -125,6 +140,9 @@ def run(R, replay=None):
             continue
         present = sorted({r["test_id"] for r in full["results"]} | {"B402", "B404"})
         targeted = [("include", [i], []) for i in present[:4]] + [("exclude", [], [i]) for i in present[:4]]
+        if data in ALL_IDS_PROGS:
+            every = sorted(bl_ids & {x for x in all_ids if x.startswith("B4")})
+            targeted = [("include", [i], []) for i in every] + [("exclude", [], [i]) for i in present]
         import re as _re
         named = sorted(set(_re.findall(r"\bB\d{3}\b", " ".join(_re.findall(rb"#\s*nosec([^\n]*)", data)[0:8] and [x.decode("latin-1") for x in _re.findall(rb"#\s*nosec([^\n]*)", data)]))))
         if named:
@@ -151,7 +169,15 @@ def run(R, replay=None):
                 extra_f = [g for g in got if g not in want]
                 sig = None
                 if extra_f and all(g[1] == "blacklist" for g in extra_f) and not [w for w in want if w not in got]:
-                    sig = "blacklist-one-finding-per-node"
+                    # the known finding is about one node holding several names (import a, b): one name that two rules claim
+                    # is something else
+                    import ast as _ast
+                    try:
+                        multi = {n_.lineno for n_ in _ast.walk(_ast.parse(data)) if isinstance(n_, (_ast.Import, _ast.ImportFrom)) and len(n_.names) > 1}
+                    except SyntaxError:
+                        multi = set()
+                    if all(g[6] in multi for g in extra_f):
+                        sig = "blacklist-one-finding-per-node"
                 R.violations.append({"what": "findings under the selection differ from the selected findings of the unrestricted run",
                                      "input": {"program": data.decode("utf-8", "replace")[:400], "include": inc, "exclude": exc, "config": cfg_file and open(cfg_file).read()},
                                      "observed": {"extra": [(g[0], g[6]) for g in got if g not in want][:5],
